@@ -12,6 +12,7 @@ import TeraModel.Lemmas.Range
 import TeraModel.Lemmas.Round
 import TeraModel.Lemmas.Text
 import TeraModel.Lemmas.Total
+import TeraModel.Lemmas.KwDeps
 import TeraModel.Generated.Builtins
 namespace Tera.C17
 open Tera Tera.Args Tera.Builtins
@@ -50,6 +51,18 @@ theorem receiver_refusal_reported (b : Builtin) (v : Value) (kw : Kwargs) (e : B
 theorem receiver_accepted_runs_body (b : Builtin) (v : Value) (kw : Kwargs)
     (h : b.recv.check v = .ok ()) : b.apply v kw = b.body v kw := by
   simp [Builtin.apply, h]
+
+/-- **Keyword arguments: exactly the declared ones matter.**  Pairing the model's tables with
+the signatures extracted from filters.rs / tests.rs / functions.rs (names equal, position by
+position): the outcome of every built-in, on every receiver, is the same for any two keyword
+maps that agree on the names the Rust body reads with `kwargs.get / must_get` — an argument the
+built-in does not declare can never change a result, and the model reads no name the Rust does
+not.  Re-proved against the source on every run. -/
+theorem kwargs_only_declared_matter (P : Params) (n : Nat) :
+    AllPairs SigOk (filterTable P) Generated.Builtins.filterSigs ∧
+    AllPairs SigOk testTable Generated.Builtins.testSigs ∧
+    AllPairs SigOk (functionTable n) Generated.Builtins.functionSigs :=
+  ⟨filters_depend_only P, tests_depend_only, functions_depend_only n⟩
 
 /-! ## `ArgFromValue`: which kinds each typed argument accepts -/
 
@@ -415,6 +428,28 @@ theorem float_of_number (P : Params) (v : Value) :
     cases v <;> simp_all [fFloat, Value.asNumber, Number.toFloat]
   · intro hn hs
     cases v <;> simp_all [fFloat]
+
+/-- **float of a small integer is exact**: for `|n| < 2^53` the float `float` returns denotes
+exactly `n` (beyond that it is the nearest float, ties to even — `F64.ofIntRNE`, shared with C13). -/
+theorem float_of_small_int_exact (n : Int) (h : n.natAbs < 2 ^ 53) :
+    (F64.ofIntRNE n).num = n ∧ (F64.ofIntRNE n).den = 1 := by
+  have hb : F64.bitLen n.natAbs ≤ 53 := by
+    unfold F64.bitLen
+    split
+    · omega
+    · rename_i h0
+      have := (Nat.log2_lt h0).2 h
+      omega
+  have hr : F64.roundNat n.natAbs = (n.natAbs, 0) := by
+    simp [F64.roundNat, hb]
+  simp only [F64.ofIntRNE, hr, F64.num, F64.den]
+  constructor
+  · by_cases hn : n < 0
+    · have e0 : ((0 : Nat) : Int).toNat = 0 := rfl
+      simp only [hn, decide_true, if_true, e0, pow_zero, mul_one]; omega
+    · have e0 : ((0 : Nat) : Int).toNat = 0 := rfl
+      simp only [hn, decide_false, Bool.false_eq_true, if_false, e0, pow_zero, mul_one]; omega
+  · simp
 
 /-- **round (precision 0) is exact**: for a finite float `x = num / den`, the default method
 gives the integer-valued float `±k` with `|x| - 1/2 < k ≤ |x| + 1/2` (nearest, ties away from
